@@ -5,28 +5,208 @@ bad input is rejected without damage (C19).
 -/
 namespace Ebu.State
 
+theorem registered_of_cols (m m' : Mat) (ty : Nat)
+    (h : m'.cols.map Prod.fst = m.cols.map Prod.fst) : m'.registered ty = m.registered ty := by
+  have : ∀ (l : List (Nat × Coll)), l.any (fun p => p.1 == ty) = (l.map Prod.fst).any (· == ty) := by
+    intro l; simp [List.any_map, Function.comp_def]
+  simp only [Mat.registered, this, h]
+
+theorem updateColl_fst (m : Mat) (ty : Nat) (f : Coll → Coll) :
+    (m.updateColl ty f).cols.map Prod.fst = m.cols.map Prod.fst := by
+  simp only [Mat.updateColl, List.map_map]
+  congr 1; funext p; simp only [Function.comp]; split <;> rfl
+
+theorem apply_fst (m : Mat) (e : Ev) : (m.apply e).1.cols.map Prod.fst = m.cols.map Prod.fst := by
+  obtain ⟨off, msg⟩ := e
+  cases msg with
+  | garbage => rfl
+  | control k => cases k <;> simp [Mat.apply, Function.comp_def]
+  | change ty key op val valOk =>
+    simp only [Mat.apply]
+    by_cases hr : m.registered ty = true
+    · cases op <;> cases valOk <;> simp [hr, updateColl_fst]
+    · cases hs : m.strict <;> simp [hr]
+
+theorem apply_strict (m : Mat) (e : Ev) : (m.apply e).1.strict = m.strict := by
+  obtain ⟨off, msg⟩ := e
+  cases msg with
+  | garbage => rfl
+  | control k => cases k <;> rfl
+  | change ty key op val valOk =>
+    simp only [Mat.apply]
+    by_cases hr : m.registered ty = true
+    · cases op <;> cases valOk <;> simp [hr, Mat.updateColl]
+    · cases hs : m.strict <;> simp [hr, hs]
+
 /-- registering collections does not depend on contents; the set of registered types and the
 strict flag never change while applying -/
 theorem apply_config (m : Mat) (e : Ev) :
-    (m.apply e).1.strict = m.strict ∧ ∀ ty, (m.apply e).1.registered ty = m.registered ty := by
-  sorry
+    (m.apply e).1.strict = m.strict ∧ ∀ ty, (m.apply e).1.registered ty = m.registered ty :=
+  ⟨apply_strict m e, fun ty => registered_of_cols _ _ ty (apply_fst m e)⟩
 
 /-- whether `Apply` returns an error is exactly `¬ applies` -/
 theorem apply_err_iff (m : Mat) (e : Ev) :
     (m.apply e).2 = !applies m.strict m.registered e := by
-  sorry
+  obtain ⟨off, msg⟩ := e
+  cases msg with
+  | garbage => rfl
+  | control k => rfl
+  | change ty key op val valOk =>
+    simp only [Mat.apply, applies]
+    by_cases hr : m.registered ty = true
+    · cases op <;> cases valOk <;> simp [hr]
+    · cases hs : m.strict <;> simp [hr]
 
 /-- C19: an event that cannot be applied leaves every collection and LastOffset unchanged -/
 theorem apply_error_no_change (m : Mat) (e : Ev) (h : (m.apply e).2 = true) :
     (m.apply e).1.cols = m.cols ∧ (m.apply e).1.lastOffset = m.lastOffset := by
-  sorry
+  obtain ⟨off, msg⟩ := e
+  cases msg with
+  | garbage => exact ⟨rfl, rfl⟩
+  | control k => simp [Mat.apply] at h
+  | change ty key op val valOk =>
+    simp only [Mat.apply] at h ⊢
+    by_cases hr : m.registered ty = true
+    · cases op <;> cases valOk <;> simp [hr] at h ⊢
+    · cases hs : m.strict <;> simp [hr, hs] at h ⊢
+
+def collC (cols : List (Nat × Coll)) (ty : Nat) : Option Coll :=
+  (cols.find? (fun p => p.1 == ty)).map (·.2)
+
+theorem lookup_eq_coll (m : Mat) (ty key : Nat) :
+    m.lookup ty key = (collC m.cols ty).bind (fun c => Coll.get c key) := by
+  simp only [Mat.lookup, collC]
+  cases m.cols.find? (fun p => p.1 == ty) <;> rfl
+
+theorem coll_none_of_not_registered (m : Mat) (ty : Nat) (h : m.registered ty = false) :
+    collC m.cols ty = none := by
+  simp only [Mat.registered] at h
+  simp only [collC, Option.map_eq_none_iff, List.find?_eq_none]
+  intro p hp
+  have := List.any_eq_false.mp h p hp
+  simpa using this
+
+theorem coll_isSome_of_registered (m : Mat) (ty : Nat) (h : m.registered ty = true) :
+    ∃ c, collC m.cols ty = some c := by
+  simp only [Mat.registered, List.any_eq_true] at h
+  obtain ⟨p, hp, hpt⟩ := h
+  cases hf : m.cols.find? (fun p => p.1 == ty) with
+  | none => 
+    rw [List.find?_eq_none] at hf
+    exact absurd hpt (hf p hp)
+  | some q => exact ⟨q.2, by simp [collC, hf]⟩
+
+theorem coll_updateColl (cols : List (Nat × Coll)) (ty' : Nat) (f : Coll → Coll) (ty : Nat) :
+    collC (cols.map (fun p => if p.1 == ty' then (p.1, f p.2) else p)) ty
+      = if ty' = ty then (collC cols ty).map f else collC cols ty := by
+  simp only [collC, List.find?_map]
+  have hc : ((fun (p : Nat × Coll) => p.1 == ty) ∘ fun (p : Nat × Coll) => if (p.1 == ty') = true then (p.1, f p.2) else p)
+      = (fun (p : Nat × Coll) => p.1 == ty) := by
+    funext p; simp only [Function.comp]; split <;> rfl
+  rw [hc]
+  cases hf : cols.find? (fun p => p.1 == ty) with
+  | none => simp
+  | some q =>
+    have hq : q.1 = ty := by simpa using List.find?_some hf
+    by_cases h : ty' = ty
+    · simp [h, hq]
+    · have : ¬ q.1 = ty' := by rw [hq]; exact fun h' => h h'.symm
+      simp [h, this]
+
+theorem coll_updateColl' (m : Mat) (ty' : Nat) (f : Coll → Coll) (ty : Nat) :
+    collC (m.updateColl ty' f).cols ty
+      = if ty' = ty then (collC m.cols ty).map f else collC m.cols ty :=
+  coll_updateColl m.cols ty' f ty
+
+theorem coll_reset (cols : List (Nat × Coll)) (ty : Nat) :
+    collC (cols.map (fun (p : Nat × Coll) => (p.1, ([] : Coll)))) ty
+      = (collC cols ty).map (fun _ => []) := by
+  simp only [collC, List.find?_map]
+  have hc : ((fun (p : Nat × Coll) => p.1 == ty) ∘ fun (p : Nat × Coll) => (p.1, ([] : Coll)))
+      = (fun (p : Nat × Coll) => p.1 == ty) := rfl
+  rw [hc]
+  cases cols.find? (fun p => p.1 == ty) <;> rfl
+
+theorem get_set (c : Coll) (k v k' : Nat) :
+    Coll.get (c.set k v) k' = if k = k' then some v else Coll.get c k' := by
+  by_cases h : k = k'
+  · simp [Coll.get, Coll.set, h]
+  · simp only [Coll.get, Coll.set, h, if_false]
+    rw [List.find?_cons_of_neg (by simpa using h), List.find?_filter]
+    congr 2; funext p
+    by_cases hp : p.1 = k' <;> simp [hp]
+    intro h'; exact h h'.symm
+
+theorem get_del (c : Coll) (k k' : Nat) :
+    Coll.get (c.del k) k' = if k = k' then none else Coll.get c k' := by
+  by_cases h : k = k'
+  · simp [Coll.get, Coll.del, h, List.find?_filter]
+  · simp only [Coll.get, Coll.del, h, if_false]
+    rw [List.find?_filter]
+    congr 2; funext p
+    by_cases hp : p.1 = k' <;> simp [hp]
+    intro h'; exact h h'.symm
+
+/-- one step of `lastWrite` -/
+def lwStep (strict : Bool) (reg : Nat → Bool) (ty key : Nat) (e : Ev) (acc : Option Nat) : Option Nat :=
+  if !applies strict reg e then acc else
+    match e.msg with
+    | .control .reset => none
+    | .change ty' key' op val _ =>
+      if ty' = ty ∧ key' = key ∧ reg ty then
+        (match op with | .insert | .update => some val | .delete => none | .other => acc)
+      else acc
+    | _ => acc
+
+theorem lastWrite_cons (strict : Bool) (reg : Nat → Bool) (ty key : Nat) (e : Ev) (rest : List Ev)
+    (acc : Option Nat) :
+    lastWrite strict reg ty key (e :: rest) acc
+      = lastWrite strict reg ty key rest (lwStep strict reg ty key e acc) := rfl
+
+theorem lookup_of_cols (m m' : Mat) (h : m'.cols = m.cols) (ty key : Nat) :
+    m'.lookup ty key = m.lookup ty key := by
+  simp only [Mat.lookup, h]
+
+theorem apply_lookup (m : Mat) (e : Ev) (ty key : Nat) :
+    (m.apply e).1.lookup ty key = lwStep m.strict m.registered ty key e (m.lookup ty key) := by
+  obtain ⟨off, msg⟩ := e
+  cases msg with
+  | garbage => rfl
+  | control k =>
+    cases k
+    · simp only [Mat.apply, lwStep, applies, lookup_eq_coll, coll_reset]
+      cases collC m.cols ty <;> simp [Coll.get]
+    all_goals rfl
+  | change ty' key' op val valOk =>
+    by_cases hr : m.registered ty' = true
+    · obtain ⟨c, hc⟩ := coll_isSome_of_registered m ty' hr
+      cases op <;> cases valOk <;>
+        by_cases hty : ty' = ty <;> by_cases hk : key' = key <;> subst_vars <;>
+        simp_all [Mat.apply, lwStep, applies, lookup_eq_coll, coll_updateColl', get_set, get_del]
+    · have hn := coll_none_of_not_registered m ty' (by simpa using hr)
+      cases hs : m.strict <;> simp only [Mat.apply, lwStep, applies, hr, hs, lookup_eq_coll]
+        <;> by_cases hty : ty' = ty <;> subst_vars <;> simp_all
+
+theorem registered_apply (m : Mat) (e : Ev) : (m.apply e).1.registered = m.registered :=
+  funext fun ty => (apply_config m e).2 ty
+
+theorem applyAll_cons (m : Mat) (e : Ev) (l : List Ev) :
+    applyAll m (e :: l) = applyAll (m.apply e).1 l := rfl
+
+theorem materialize_eq_fold_aux (m : Mat) (log : List Ev) (ty key : Nat) :
+    (applyAll m log).lookup ty key = lastWrite m.strict m.registered ty key log (m.lookup ty key) := by
+  induction log generalizing m with
+  | nil => rfl
+  | cons e rest ih =>
+    rw [applyAll_cons, ih, lastWrite_cons, apply_strict, registered_apply, apply_lookup]
 
 /-- C18: after any sequence of messages each registered collection holds exactly the last
 written value of every key that was not deleted or reset afterwards -/
 theorem materialize_eq_fold (m : Mat) (log : List Ev) (ty key : Nat)
     (hnodup : (m.cols.map (·.1)).Nodup) :
     (applyAll m log).lookup ty key = lastWrite m.strict m.registered ty key log (m.lookup ty key) := by
-  sorry
+  have _ := hnodup  -- not needed: `lookup` reads the first collection of a type, `updateColl` maps all
+  exact materialize_eq_fold_aux m log ty key
 
 /-- snapshot markers, unknown operations, unknown control kinds and – in non-strict mode –
 messages for unregistered entity types change no collection -/
@@ -34,22 +214,112 @@ theorem identities (m : Mat) (e : Ev)
     (h : (∃ k, e.msg = .control k ∧ k ≠ .reset) ∨ (∃ ty key val ok, e.msg = .change ty key .other val ok) ∨
          (∃ ty key op val ok, e.msg = .change ty key op val ok ∧ m.registered ty = false)) :
     (m.apply e).1.cols = m.cols := by
-  sorry
+  obtain ⟨off, msg⟩ := e
+  rcases h with ⟨k, hk, hne⟩ | ⟨ty, key, val, ok, hm⟩ | ⟨ty, key, op, val, ok, hm, hr⟩
+  · simp only at hk; subst hk
+    cases k
+    · exact absurd rfl hne
+    all_goals rfl
+  · simp only at hm; subst hm
+    simp only [Mat.apply]
+    split
+    · split <;> rfl
+    · rfl
+  · simp only at hm; subst hm
+    simp only [Mat.apply, hr]
+    cases m.strict <;> rfl
 
 /-- reset empties every collection -/
 theorem reset_empties_all (m : Mat) (off : Nat) (ty key : Nat) :
     ((m.apply ⟨off, .control .reset⟩).1).lookup ty key = none ∧ (m.apply ⟨off, .control .reset⟩).2 = false := by
-  sorry
+  refine ⟨?_, rfl⟩
+  rw [apply_lookup]; rfl
+
+theorem apply_lastOffset (m : Mat) (e : Ev) :
+    (m.apply e).1.lastOffset = if applies m.strict m.registered e then e.off else m.lastOffset := by
+  obtain ⟨off, msg⟩ := e
+  cases msg with
+  | garbage => rfl
+  | control k => cases k <;> rfl
+  | change ty key op val valOk =>
+    simp only [Mat.apply, applies]
+    by_cases hr : m.registered ty = true
+    · cases op <;> cases valOk <;> simp [hr, Mat.updateColl]
+    · cases hs : m.strict <;> simp [hr]
 
 /-- LastOffset is the offset of the last successfully applied event -/
 theorem lastOffset_spec (m : Mat) (log : List Ev) :
     (applyAll m log).lastOffset = lastApplied m.strict m.registered log m.lastOffset := by
-  sorry
+  induction log generalizing m with
+  | nil => rfl
+  | cons e rest ih =>
+    rw [applyAll_cons, ih, apply_strict, registered_apply, apply_lastOffset]; rfl
 
 /-- `Replay` = apply until the first failing event -/
 theorem replay_spec (m : Mat) (log : List Ev) (h : ∀ e ∈ log, applies m.strict m.registered e = true) :
     m.replay log = (applyAll m log, false) := by
-  sorry
+  induction log generalizing m with
+  | nil => rfl
+  | cons e rest ih =>
+    have he : (m.apply e).2 = false := by
+      rw [apply_err_iff, h e (List.mem_cons_self)]; rfl
+    have : m.replay (e :: rest) = (m.apply e).1.replay rest := by
+      simp only [Mat.replay, he]; rfl
+    rw [this, applyAll_cons]
+    apply ih
+    intro e' he'
+    rw [apply_strict, registered_apply]
+    exact h e' (List.mem_cons_of_mem _ he')
+
+theorem applyAll_append (m : Mat) (l1 l2 : List Ev) :
+    applyAll m (l1 ++ l2) = applyAll (applyAll m l1) l2 := by
+  simp only [applyAll, List.foldl_append]
+
+theorem applyAll_strict (m : Mat) (l : List Ev) : (applyAll m l).strict = m.strict := by
+  induction l generalizing m with
+  | nil => rfl
+  | cons e rest ih => rw [applyAll_cons, ih, apply_strict]
+
+theorem applyAll_registered (m : Mat) (l : List Ev) : (applyAll m l).registered = m.registered := by
+  induction l generalizing m with
+  | nil => rfl
+  | cons e rest ih => rw [applyAll_cons, ih, registered_apply]
+
+theorem after_eq_self (o : Nat) (l : List Ev) (h : ∀ e ∈ l, o < e.off) : after o l = l := by
+  simp only [after, List.filter_eq_self]
+  intro e he; simpa using h e he
+
+theorem after_eq_nil (o : Nat) (l : List Ev) (h : ∀ e ∈ l, e.off ≤ o) : after o l = [] := by
+  simp only [after, List.filter_eq_nil_iff]
+  intro e he; have := h e he; simp; omega
+
+theorem after_resume (m : Mat) (l1 l2 : List Ev) (hinc : increasing (l1 ++ l2))
+    (hstart : ∀ e ∈ l1 ++ l2, m.lastOffset < e.off)
+    (hok : ∀ e ∈ l1, applies m.strict m.registered e = true) :
+    after (applyAll m l1).lastOffset (l1 ++ l2) = l2 := by
+  rcases List.eq_nil_or_concat l1 with rfl | ⟨L, b, rfl⟩
+  · exact after_eq_self _ _ hstart
+  · simp only [List.concat_eq_append] at hinc hstart hok ⊢
+    have hb : (applyAll m (L ++ [b])).lastOffset = b.off := by
+      rw [applyAll_append]
+      show ((applyAll m L).apply b).1.lastOffset = b.off
+      rw [apply_lastOffset, applyAll_strict, applyAll_registered, hok b (by simp)]; rfl
+    rw [hb]
+    unfold increasing at hinc
+    rw [List.pairwise_append] at hinc
+    obtain ⟨h1, _, h12⟩ := hinc
+    rw [List.pairwise_append] at h1
+    obtain ⟨_, _, hLb⟩ := h1
+    have e1 : after b.off (L ++ [b]) = [] := by
+      apply after_eq_nil
+      intro e he
+      rcases List.mem_append.mp he with he | he
+      · exact Nat.le_of_lt (hLb e he b (by simp))
+      · simp at he; subst he; exact Nat.le_refl _
+    have e2 : after b.off l2 = l2 := after_eq_self _ _ (fun e he => h12 b (by simp) e he)
+    have : after b.off (L ++ [b] ++ l2) = after b.off (L ++ [b]) ++ after b.off l2 := by
+      simp only [after, List.filter_append]
+    rw [this, e1, e2]; rfl
 
 /-- C18: applying a log in two sessions – the second resumed from LastOffset – gives the same
 state as applying it in one (logs whose events all apply, with increasing offsets) -/
@@ -57,28 +327,52 @@ theorem resume_equiv (m : Mat) (l1 l2 : List Ev) (hinc : increasing (l1 ++ l2))
     (hstart : ∀ e ∈ l1 ++ l2, m.lastOffset < e.off)
     (hok : ∀ e ∈ l1 ++ l2, applies m.strict m.registered e = true) :
     ((m.replay l1).1.replay (after (m.replay l1).1.lastOffset (l1 ++ l2))).1 = (m.replay (l1 ++ l2)).1 := by
-  sorry
+  have hok1 : ∀ e ∈ l1, applies m.strict m.registered e = true :=
+    fun e he => hok e (List.mem_append_left _ he)
+  have hok2 : ∀ e ∈ l2, applies (applyAll m l1).strict (applyAll m l1).registered e = true := by
+    intro e he
+    rw [applyAll_strict, applyAll_registered]
+    exact hok e (List.mem_append_right _ he)
+  rw [replay_spec m l1 hok1, replay_spec m (l1 ++ l2) hok]
+  simp only
+  rw [after_resume m l1 l2 hinc hstart hok1, replay_spec _ l2 hok2, applyAll_append]
 
 /-- keys containing the separator cannot collide inside a collection: for a fixed entity
 type the composite key determines the key -/
 theorem compositeKey_inj (ty k1 k2 : String) (h : compositeKey ty k1 = compositeKey ty k2) : k1 = k2 := by
-  sorry
+  simp only [compositeKey, String.append_assoc] at h
+  exact (String.append_right_inj _).mp ((String.append_right_inj _).mp h)
 
 end Ebu.State
 
 namespace Ebu.StateWire
 
-/-- C19: a change message built by the helpers decodes to the same entity type, key,
-operation and value – for every option combination – and is never mistaken for a control message -/
-theorem decode_encode_change (m : Change) :
-    decode (encodeChange m) = .change m.ty m.key m.op (m.value.map Leaf.doc) := by
-  sorry
+theorem fold_beq (a b : String) :
+    (fold a == fold b) = decide (a.toList.map Char.toLower = b.toList.map Char.toLower) := by
+  have : fold a = fold b ↔ a.toList.map Char.toLower = b.toList.map Char.toLower := by
+    rw [← String.toList_inj, fold, fold, String.toList_map, String.toList_map]
+  by_cases h : fold a = fold b
+  · rw [beq_iff_eq.mpr h, decide_eq_true (this.mp h)]
+  · rw [beq_eq_false_iff_ne.mpr h, decide_eq_false (fun x => h (this.mpr x))]
+
 
 /-- C19: a control message built by the helpers is recognised as that control message
 (helpers always set a non-empty control kind) -/
 theorem decode_encode_control (m : Control) (h : m.control ≠ "") :
     decode (encodeControl m) = .control m.control := by
-  sorry
+  cases ho : m.offset.isEmpty <;>
+  simp [decode, encodeControl, controlOf, field, optField, fold_beq, asString, ho, h]
+
+/-- C19: a change message built by the helpers decodes to the same entity type, key,
+operation and value – for every option combination – and is never mistaken for a control message -/
+theorem decode_encode_change (m : Change) :
+    decode (encodeChange m) = .change m.ty m.key m.op (m.value.map Leaf.doc) := by
+  obtain ⟨ty, key, op, value, old, txid, ts⟩ := m
+  cases value <;> cases old <;> cases h1 : txid.isEmpty <;> cases h2 : ts.isEmpty <;>
+    simp [decode, encodeChange, controlOf, changeOf, field, optField, fold_beq, asString, asStringV, h1, h2]
+
+/-- anything that is not a JSON object (or null) is rejected -/
+theorem decode_notObject : decode .notObject = .error := rfl
 
 /-- C19: the serialised form uses exactly the state-protocol field names, with `omitempty` -/
 theorem wire_field_names (m : Change) :
@@ -86,10 +380,7 @@ theorem wire_field_names (m : Change) :
         (match m.value with | some v => [("value", Val.leaf (.doc v))] | none => []) ++
         (match m.old with | some v => [("old_value", Val.leaf (.doc v))] | none => []) ++ [("headers", .obj hs)]) ∧
       hs.map (·.1) = ["operation"] ++ (if m.txid.isEmpty then [] else ["txid"]) ++ (if m.ts.isEmpty then [] else ["timestamp"]) := by
-  sorry
-
-/-- anything that is not a JSON object (or null) is rejected -/
-theorem decode_notObject : decode .notObject = .error := by
-  sorry
+  refine ⟨_, rfl, ?_⟩
+  cases h1 : m.txid.isEmpty <;> cases h2 : m.ts.isEmpty <;> simp [optField, h1, h2]
 
 end Ebu.StateWire
